@@ -394,7 +394,7 @@ func (d Dict) ArrayEnumerator() ValueEnumerator {
 }
 
 func (d Dict) DictEnumerator() *DictEnumerator {
-	return &DictEnumerator{i: d.m.Range()}
+	return &DictEnumerator{e: dictEnumerator{i: d.m.Range(), j: frozen.Set[Value]{}.Range()}}
 }
 
 func DictTupleMatcher() func(v Value) (key, value Value, matches bool) {
@@ -443,16 +443,19 @@ func (a *dictEnumerator) Current() Value {
 	return a.v
 }
 
+// DictEnumerator enumerates the (key, value) pairs of a Dict; a key that holds
+// several values yields one pair per value.
 type DictEnumerator struct {
-	i frozen.MapIterator[Value, any]
+	e dictEnumerator
 }
 
 func (a *DictEnumerator) MoveNext() bool {
-	return a.i.Next()
+	return a.e.MoveNext()
 }
 
 func (a *DictEnumerator) Current() (key, value Value) {
-	return a.i.Key(), a.i.Value().(Value)
+	t := a.e.v.(DictEntryTuple)
+	return t.at, t.value
 }
 
 type dictEntryTupleSort []DictEntryTuple
